@@ -16,7 +16,7 @@ PROPERTY = "C10"
 LEVEL = "model_checking"
 ASSUMPTIONS = [
     "level value tables are swapped for a permissive table (ordering patterns real) so that levels 1 and 66 can be used with tiny formats",
-    "pool of 12 conformant and 5 non-conformant sequences (independent builder + real encoder); all lists up to length 3 (quick) / 4 (thorough, reduced pool)",
+    "pool of 12 conformant and 13 non-conformant sequences (independent builder + real encoder; the non-conformant ones break rules at the start, in the middle and at the end of a sequence); all lists up to length 3 (quick) / 4 (thorough, reduced pool)",
 ]
 M32 = 1 << 32
 
@@ -57,6 +57,15 @@ def sequence_pool():
     add("bad-version-too-high", B.simple_stream(hq3, 1), ok=False)
     add("bad-last-ppo", [B.seq_header(hq2), B.picture(hq2, 0), B.end_of_sequence(ppo=("delta", 1))], ok=False)
     add("bad-second-picture-number", [B.seq_header(hq2), B.picture(hq2, 0), B.picture(hq2, 2), B.end_of_sequence()], ok=False)
+    # violations located at the very *start* of a sequence (state that must not leak in from a predecessor)
+    add("bad-starts-with-padding", [B.padding(b"")] + B.simple_stream(hq2, 1), ok=False)
+    add("bad-starts-with-aux", [B.auxiliary(b"z")] + B.simple_stream(hq2, 1), ok=False)
+    add("bad-starts-with-picture", [B.picture(hq2, 0), B.end_of_sequence()], ok=False)
+    add("bad-first-ppo", [B.seq_header(hq2, ppo=13), B.picture(hq2, 0), B.end_of_sequence()], ok=False)
+    add("bad-odd-first-field", B.simple_stream(fields, 2, first_picture_number=11), ok=False)
+    add("bad-header-changed", [B.seq_header(hq2), B.picture(hq2, 0), B.seq_header(hq2.but(frame_rate=("preset", 3))), B.end_of_sequence()], ok=False)
+    add("bad-slice-fragment-first", [B.seq_header(hq3), B.fragment_slices(hq3, 0, 0, 1), B.end_of_sequence()], ok=False)
+    add("bad-ld-picture-in-hq", [B.seq_header(hq2), B.picture(ld1.but(major_version=2), 0), B.end_of_sequence()], ok=False)
     return pool_
 
 
@@ -121,7 +130,7 @@ def all_lists(tier):
     if tier == "thorough":
         for L in (1, 2, 3):
             out.extend(itertools.product(range(n), repeat=L))
-        small = [0, 1, 2, 4, 6, 7, 8, 12, 13, 14]
+        small = [0, 1, 2, 4, 6, 7, 8, 12, 13, 14, 17, 20, 23]
         out.extend(itertools.product(small, repeat=4))
     else:
         for L in (1, 2, 3):
